@@ -412,7 +412,35 @@ def g_level(ck: Check, rule: str) -> None:
             it = unwrap_order(l.iter)
             return it is c or (v is not None and isinstance(it, ast.Name) and it.id == v)
         inner = [l for l in ast.walk(loop) if isinstance(l, ast.For) and l is not loop and ranges_over_successors(l)]
-        if len(inner) != 1:
+        # the same written as a filter: U = [s for s in successors if s not in seen]; seen.update(U); level.extend(U)
+        filt = None
+        for st_ in ast.walk(loop):
+            if isinstance(st_, ast.Assign) and isinstance(st_.targets[0], ast.Name) and isinstance(st_.value, (ast.ListComp, ast.SetComp)) \
+                    and len(st_.value.generators) == 1:
+                g_ = st_.value.generators[0]
+                it_ = unwrap_order(g_.iter)
+                if (it_ is c or (v is not None and isinstance(it_, ast.Name) and it_.id == v)) and isinstance(g_.target, ast.Name) \
+                        and text(st_.value.elt) == g_.target.id:
+                    filt = (st_, g_)
+        if not inner and filt is not None:
+            st_, g_ = filt
+            U = st_.targets[0].id
+            okf = len(g_.ifs) == 1 and isinstance(g_.ifs[0], ast.Compare) and len(g_.ifs[0].ops) == 1 and isinstance(g_.ifs[0].ops[0], ast.NotIn) \
+                and text(g_.ifs[0].left) == g_.target.id and isinstance(g_.ifs[0].comparators[0], ast.Name)
+            if not okf:
+                probs.append(f"successors are filtered by `{' and '.join(text(x) for x in g_.ifs)}` before they are enqueued (expected: not seen before)")
+            else:
+                SEEN = g_.ifs[0].comparators[0].id
+                cn_f = fm.cfgn(st_)
+                hdr_l = fm.cfg.loop_header[loop]
+                from .c13 import _within
+                pushes_u = {fm.cfgn(x).id for x in ast.walk(loop) if (isinstance(x, ast.Call) and isinstance(x.func, ast.Attribute)
+                            and x.func.attr in ("extend", "update", "extendleft") and isinstance(x.func.value, ast.Name)
+                            and x.func.value.id != SEEN and x.args and text(x.args[0]) == U)
+                            or (isinstance(x, ast.AugAssign) and isinstance(x.target, ast.Name) and x.target.id != SEEN and text(x.value) == U)}
+                if not pushes_u or hdr_l.id in _within(fm, loop, cn_f, pushes_u):
+                    probs.append("the unseen successors are not (always) pushed to the next level")
+        elif len(inner) != 1:
             probs.append("the successors are not enqueued by one loop over the (sorted) successor list")
         else:
             il = inner[0]
